@@ -2,7 +2,39 @@
 import setcheck, phasecheck as pc
 
 
+def deployment_stage(run, tier, seed, replay_sc=None):
+    """The ObjectDeployment half of C09 on the real (Cluster)ObjectDeployment controller (model Deployment.v, theorems
+    C09_deployment_paused(_exact), C09_unpause_sound/_exact in props/C08.v): corpus + pause-heavy histories, judged by the
+    paused / unpause monitors of C08Corr."""
+    import deplib as dl, depgen, depcheck as dc, C08
+    if replay_sc is not None:
+        pairs = [(dl.Ctx(replay_sc["alphabet"], cluster=replay_sc["dep"]["kind"] == 6), replay_sc)]
+    else:
+        pairs = depgen.corpus() + depgen.histories(seed, 120 if tier == "quick" else 1500, salt="C09")
+    res = dl.run_cases(run, pairs, "judge08", 7, "From PKOCorr Require Import C08Corr.", shard=200)
+    n = 0
+    for ctx, sc, obs, r in res:
+        if r is None:
+            continue
+        n += 1
+        mons = dict(zip(C08.NAMES, r[1:]))
+        for name in ("paused", "unpause"):
+            if not mons[name]:
+                run.violation(C08.WHAT[name], {"scenario": dl.slim(sc), "impl": dc.slim_obs(obs), "monitor": name}, True)
+    run.cov["deployment_stage"] = {"histories": n}
+    run.cov["evaluations"] = run.cov.get("evaluations", 0) + n
+
+
 def check(run, tier, seed, replay=None):
+    if replay:
+        import json
+        rsc = json.load(open(replay))["replay"]["scenario"]
+        if "alphabet" in rsc:
+            import vlib
+            vlib.std_proof_stage(run, "C09")
+            vlib.build_harness()
+            deployment_stage(run, tier, seed, replay_sc=rsc)
+            return
     pscs = [s for s in pc.random_phases(seed + 9, 1500 if tier == "quick" else 20000)]
     for i, s in enumerate(pscs):
         s["owner"]["paused"] = (i % 3 != 0)
@@ -12,3 +44,5 @@ def check(run, tier, seed, replay=None):
                        "controller, and paused owners of all five phase-controller flavours through the real PhaseReconciler",
                        phase_judge="judge09p", phase_scs=pscs,
                        extra_identities=("C09 pause not handed to a delegated phase behind an incomplete earlier phase",))
+    if not replay:
+        deployment_stage(run, tier, seed)
